@@ -219,6 +219,10 @@ def putBackups (fs : FS) : List (Bytes × List (Bytes × FileSt Bytes)) → Exce
 structure SpecOut where
   exit : Nat
   fs : FS
+  /-- the push ran into an output failure (a reject, backup or `.pc` file could not be written because
+  something else is in the way): the exit status is 1 and nothing is recorded as applied, but which of the
+  files of that last phase were written before the failure is not specified (C18 governs such runs) -/
+  ioError : Bool := false
 
 /-- what the push leaves behind once it is known which patches apply: the tree with the first `k`
 patches applied, reject files of the failing one, quilt backups, and `.pc/applied-patches` -/
@@ -229,21 +233,21 @@ def finishSpec (cfg : Cfg) (fs : FS) (range : List Series.Entry) (p : Progress) 
     -- (several failing file patches for one file overwrite each other's reject file; the one
     -- applied first is written last — known finding `dup-entry-rej-overwrite`)
     match putRejects p.fs p.rejs.reverse with
-    | .error _ => { exit := 1, fs := p.fs }
+    | .error _ => { exit := 1, fs := p.fs, ioError := true }
     | .ok fs1 =>
       let doBackups := cfg.backup == .always || (cfg.backup == .onfail && p.k != range.length)
       let window := match cfg.backupCount with
         | none => p.backups
         | some n => p.backups.drop (p.k - n)
       match (if doBackups then putBackups fs1 window else .ok fs1) with
-      | .error _ => { exit := 1, fs := fs1 }
+      | .error _ => { exit := 1, fs := fs1, ioError := true }
       | .ok fs2 =>
         -- .pc/applied-patches gains exactly the applied names, in order
         match fs2.createDirAll pcDir with
-        | .error _ => { exit := 1, fs := fs2 }
+        | .error _ => { exit := 1, fs := fs2, ioError := true }
         | .ok fs3 =>
           match fs3.appendFile appliedKey ((range.take p.k).map (fun e => e.name ++ [10])).flatten with
-          | .error _ => { exit := 1, fs := fs3 }
+          | .error _ => { exit := 1, fs := fs3, ioError := true }
           | .ok fs4 => { exit, fs := fs4 }
 
 /-- **the specification of `rapidquilt push`**: refuse inconsistent state or arguments (`plan`, see
